@@ -83,6 +83,8 @@ def evaluate(case) -> Result:
         blocked = False
         partial = [b""]          # rest of a request that is arriving in fragments
 
+        out_n = [0]
+
         def flush_partial():
             if partial[0]:
                 w.feed(c, partial[0], run=False)
@@ -116,6 +118,18 @@ def evaluate(case) -> Result:
                 w.feed(c, piece)
                 fed = "FRAG"
                 res.classes.append("fragment")
+            elif kind == "OUT":
+                # the node itself writes to the peer (an application sends a request that is never answered): the idle
+                # timer is about what was *received*
+                from diameter.message.commands import CreditControlRequest
+                out_n[0] += 1
+                m_ = CreditControlRequest()
+                m_.session_id, m_.origin_host, m_.origin_realm = f"n;{out_n[0]}", W.NODE_HOST.encode(), W.NODE_REALM.encode()
+                m_.destination_realm, m_.service_context_id = W.NODE_REALM.encode(), "x"
+                m_.cc_request_type, m_.cc_request_number = 1, 0
+                w.k.spawn(lambda m=m_: w.apps[0].send_request(m, timeout=1), name=f"outbound{out_n[0]}")
+                w.run()
+                res.classes.append("node-sends-request")
             elif kind == "BLOCK_TX":
                 blocked = True
                 c.remote.sock.tx_blocked = True       # the peer stops reading: output piles up in the node
@@ -402,6 +416,7 @@ def shard_main(shard, nshards, tier, scale):
         big = max(timers["idle"], timers["dwa"], timers["p_idle"] or 0, timers["p_dwa"] or 0)
         adv = st.tuples(st.just("ADV"), st.one_of(st.integers(1, 3), st.integers(1, max(2, big + 12))))
         ev = st.one_of(adv, adv, adv, adv, st.tuples(st.just("TRAFFIC")), st.tuples(st.just("DWR")), st.tuples(st.just("DWA")),
+                       st.tuples(st.just("OUT")), st.tuples(st.just("OUT")),
                        st.tuples(st.just("DWA"), st.sampled_from([3004, 5012, "none"])),
                        st.tuples(st.just("BLOCK_TX")), st.tuples(st.just("UNBLOCK_TX")),
                        st.tuples(st.just("FRAG"), st.integers(1, 24)), st.tuples(st.just("FRAG"), st.integers(1, 24)))
@@ -448,7 +463,7 @@ def run(tier, scale=1.0):
     rec = Recorder(PID)
     for d in hyp.pool_run(shard_main, (tier, scale)):
         rec.merge(d)
-    required = {"config-order:timers-after-peers": 1, "dwa-vs-timer": 1, "schedule-exploration": 1, "stray-dwa:dwr-in-turn:1": 1, "prelude:dpr": 1, "prelude:close": 1, "dwa-result:3004": 1, "dwa-result:none": 1, "identity:respelled": 1, "fragment": 1, "tx-blocked": 1, "dir:in": 1, "dir:out": 1, "episodes:2": 1, "closed-by-watchdog": 1, "peer-idle:True": 1,
+    required = {"node-sends-request": 1, "config-order:timers-after-peers": 1, "dwa-vs-timer": 1, "schedule-exploration": 1, "stray-dwa:dwr-in-turn:1": 1, "prelude:dpr": 1, "prelude:close": 1, "dwa-result:3004": 1, "dwa-result:none": 1, "identity:respelled": 1, "fragment": 1, "tx-blocked": 1, "dir:in": 1, "dir:out": 1, "episodes:2": 1, "closed-by-watchdog": 1, "peer-idle:True": 1,
                 "peer-dwa:True": 1, "outcomes:2": 1}
     return finish(rec, tier=tier, level="exploration", rule=RULE, assumptions=ASSUME, t0=t0,
                   required_classes=required)
